@@ -124,6 +124,17 @@ func runC08(c *Ctx) error {
 			}
 		}
 	}
+	// (a'') configuration files whose names are not plain words: the registration (conffiles line, backup line, file
+	// flag) names the path as the archive names it – no quoting of another file's syntax
+	for _, ty := range []string{"config", "config|noreplace", "config|missingok"} {
+		for _, dst := range []string{"/etc/my app/main settings.conf", "/etc/app/ünï cödé.conf", "/etc/app/sh#arp \"quoted\".conf", "/etc/app/back\\slash.conf"} {
+			s := &PkgSpec{Raw: []wire.Content{{Src: filepath.Join(tree.Root, "bin/tool"), Dst: "/usr/bin/plain"}, {Src: filepath.Join(tree.Root, "etc/app.conf"), Dst: dst, Type: ty}}, Umask: 0o022, MTime: 1700000000,
+				Describe: map[string]any{"matrix": "special-characters/" + ty, "dst": dst}}
+			for _, f := range Formats {
+				typingCase(c, fam, s, f)
+			}
+		}
+	}
 	// (a') the same matrix row for the types whose source is read, with a source that is a symbolic link in the build
 	// tree (LICENSE -> ../LICENSE.md is common): the rpm-only types keep their type and flag
 	for _, ty := range []string{"", "config", "config|noreplace", "doc", "licence", "license", "readme"} {
